@@ -26,22 +26,22 @@ impl Mode {
         }
 
         // the length passed must include the placeholder byte for the packet size!
+        // Every packet is a multiple of 4 bytes, whichever way the size is encoded.
+        if len % 4 != 0 {
+            // probably a programming error, lets bail.
+            panic!(
+                "Packet length is not divisible by 4!
+                This is probably a programming error."
+            );
+        }
+
         let n = match self {
             Mode::Uncompressed => len,
-            Mode::Compressed => {
-                if let Some(0) = len.checked_rem(4) {
-                    len / 4
-                } else {
-                    // probably a programming error, lets bail.
-                    panic!(
-                        "Packet length is not divisible by 4!
-                        This is probably a programming error."
-                    );
-                }
-            },
+            Mode::Compressed => len / 4,
         };
 
-        if n > self.max_length() {
+        // compare the raw length: the encoded size has to fit the size byte
+        if len > self.max_length() {
             // probably a programming error. lets bail.
             panic!(
                 "Provided length would overflow the maximum byte size of {}.
